@@ -25,13 +25,17 @@ type ChainStep struct {
 	Chart  int    `json:"chart"`  // 1-based index into Defaults
 	Target int    `json:"target"` // rollback only
 	Fail   bool   `json:"fail"`   // upgrade only: the cluster update fails (the revision is recorded as failed)
+	Atomic bool   `json:"atomic"` // upgrade only: --atomic (with fail: helm rolls back by itself)
+	Auto   bool   `json:"auto"`   // rollback only: the rollback the preceding atomic upgrade performed itself
 }
 
 type Chain struct {
-	ID       string      `json:"id"`
-	Driver   string      `json:"driver"` // secret | configmap | memory
-	Defaults []Tree      `json:"defaults"`
-	Steps    []ChainStep `json:"steps"`
+	ID       string `json:"id"`
+	Driver   string `json:"driver"` // secret | configmap | memory
+	Defaults []Tree `json:"defaults"`
+	// SubDefaults[i]: values.yaml of the dependency s1 packaged with chart version i+1 (none: no dependency)
+	SubDefaults []Tree      `json:"subdefaults"`
+	Steps       []ChainStep `json:"steps"`
 }
 
 // RevObs is one stored revision as read back from release storage.
@@ -86,8 +90,12 @@ func probeOf(manifest string) Tree {
 	return t
 }
 
-func chainChart(defaults Tree) (*chart.Chart, error) {
-	return BuildChart([]ChartJ{{Name: "root", Vals: defaults}}, map[string]string{"templates/cm.yaml": probeCM}, false)
+func chainChart(defaults Tree, sub *Tree) (*chart.Chart, error) {
+	levels := []ChartJ{{Name: "root", Vals: defaults}}
+	if sub != nil {
+		levels = append(levels, ChartJ{Name: "s1", Vals: *sub})
+	}
+	return BuildChart(levels, map[string]string{"templates/cm.yaml": probeCM}, false)
 }
 
 func readRevs(cfg *action.Configuration) []RevObs {
@@ -147,7 +155,11 @@ func RunChain(c *Chain) (obs ChainObs) {
 				return
 			}
 			var ch *chart.Chart
-			ch, err = chainChart(c.Defaults[s.Chart-1])
+			var sub *Tree
+			if s.Chart <= len(c.SubDefaults) {
+				sub = &c.SubDefaults[s.Chart-1]
+			}
+			ch, err = chainChart(c.Defaults[s.Chart-1], sub)
 			if err != nil {
 				obs.Panic = "harness: chart does not load: " + err.Error()
 				return
@@ -175,13 +187,27 @@ func RunChain(c *Chain) (obs ChainObs) {
 						up.ResetThenReuseValues = true
 					}
 				}
-				if s.Fail {
+				up.Atomic = s.Atomic
+				if s.Fail && s.Atomic {
+					// only the upgrade's own first request fails; the rollback it triggers goes through
+					first := true
+					env.FailRes = func(_, id string) bool {
+						if id == "probe" && first {
+							first = false
+							return true
+						}
+						return false
+					}
+				} else if s.Fail {
 					env.FailRes = func(_, id string) bool { return id == "probe" }
 				}
 				_, err = up.Run(scen.RelName, ch, vals)
 				env.FailRes = nil
 			}
 		case "rollback":
+			if s.Auto {
+				break // performed by the preceding atomic upgrade; this step only reads the revisions
+			}
 			rb := action.NewRollback(cfg)
 			rb.Version = s.Target
 			rb.Timeout = 5 * time.Second
@@ -195,6 +221,16 @@ func RunChain(c *Chain) (obs ChainObs) {
 			so.OK, so.Err = false, err.Error()
 		}
 		so.Revs = readRevs(env.Config(0))
+		if s.Atomic && s.Fail {
+			// the revision written by the upgrade's own rollback is shown at the next (auto) step
+			var cut []RevObs
+			for _, r := range so.Revs {
+				if r.Rev <= len(obs.Steps)+1 {
+					cut = append(cut, r)
+				}
+			}
+			so.Revs = cut
+		}
 		obs.Steps = append(obs.Steps, so)
 	}
 	return
